@@ -111,6 +111,8 @@ fn build_cases() -> Vec<Case> {
                 push(format!("p_eval={b}"), "p_eval", who, &|a| a.p_eval = b, Expect::ErrNoTraffic, vec![]);
                 push(format!("p_out=[{b}]"), "p_out_range", who, &|a| a.p_out = vec![b], Expect::ErrNoTraffic, vec![]);
                 push(format!("p_out=[0,{b}]"), "p_out_range", who, &|a| a.p_out = vec![0, b], Expect::ErrNoTraffic, vec![]);
+                push(format!("p_out=[{b},0]"), "p_out_range", who, &|a| a.p_out = vec![b, 0], Expect::ErrNoTraffic, vec![]);
+                push(format!("p_out=[1,{b},0]"), "p_out_range", who, &|a| a.p_out = vec![1, b, 0], Expect::ErrNoTraffic, vec![]);
             }
             push("p_out=[]".into(), "p_out_empty", who, &|a| a.p_out = vec![], Expect::ErrNoTraffic, vec![]);
             // input length
